@@ -1101,3 +1101,104 @@ example :
 example : writeCsv ';' "-".toList [exT3] = "**empty;\nall\na\nm\n\n\n".toList := by decide
 
 end Pdt.C01
+
+namespace Pdt.C01
+open Pdt Pdt.Reader Pdt.Represent Pdt.Write
+
+/-! ## 11. a syntactic sufficient condition for the destination clause of `WF` -/
+
+theorem joinStr_single (sep : Char) (xs : List Str) : joinStr [sep] xs = joinWith sep xs := by
+  induction xs with
+  | nil => rfl
+  | cons x rest ih =>
+    cases rest with
+    | nil => rfl
+    | cons y ys => simp [joinStr, joinWith, ih]
+
+theorem dedup_nodup (xs : List Str) (h : xs.Nodup) : dedup xs = xs := by
+  induction xs with
+  | nil => rfl
+  | cons x rest ih =>
+    simp only [List.nodup_cons] at h
+    simp only [dedup, ih h.2]
+    congr 1
+    apply List.filter_eq_self.2
+    intro y hy
+    simp only [bne_iff_ne, ne_eq]
+    intro e; subst e; exact h.1 hy
+
+theorem lstrip_of_head (s : Str) (h : ∀ c, s.head? = some c → isSpace c = false) : lstrip s = s :=
+  dropWhile_eq_self isSpace s h
+
+theorem rstrip_of_last (s : Str) (h : ∀ c, s.getLast? = some c → isSpace c = false) : rstrip s = s := by
+  unfold rstrip
+  rw [dropWhile_eq_self isSpace s.reverse (by intro c hc; exact h c (by simpa [List.head?_reverse] using hc))]
+  simp
+
+theorem joinWith_ne_nil (toks : List Str) (hne : toks ≠ []) (h : ∀ t ∈ toks, t ≠ []) : joinWith ' ' toks ≠ [] := by
+  cases toks with
+  | nil => exact absurd rfl hne
+  | cons t rest =>
+    have ht := h t (by simp)
+    cases rest with
+    | nil => simpa [joinWith] using ht
+    | cons y ys => simp [joinWith, ht]
+
+theorem joinWith_last (toks : List Str) (hne : toks ≠ [])
+    (htok : ∀ t ∈ toks, t ≠ [] ∧ ∀ c ∈ t, isSpace c = false) :
+    ∀ c, (joinWith ' ' toks).getLast? = some c → isSpace c = false := by
+  induction toks with
+  | nil => exact absurd rfl hne
+  | cons t rest ih =>
+    intro c hc
+    cases rest with
+    | nil =>
+      simp only [joinWith] at hc
+      exact (htok t (by simp)).2 c (List.mem_of_getLast? hc)
+    | cons y ys =>
+      simp only [joinWith] at hc
+      have hne' : joinWith ' ' (y :: ys) ≠ [] :=
+        joinWith_ne_nil (y :: ys) (by simp) (fun u hu => (htok u (List.mem_cons_of_mem _ hu)).1)
+      have : (t ++ ' ' :: joinWith ' ' (y :: ys)).getLast? = (joinWith ' ' (y :: ys)).getLast? := by
+        rw [List.getLast?_append]
+        cases hj : joinWith ' ' (y :: ys) with
+        | nil => exact absurd hj hne'
+        | cons a as =>
+          rw [List.getLast?_cons_cons]
+          cases hl : (a :: as).getLast? with
+          | none => simp at hl
+          | some z => simp
+      rw [this] at hc
+      exact ih (by simp) (fun u hu => htok u (List.mem_cons_of_mem _ hu)) c hc
+
+theorem joinWith_first (toks : List Str) (hne : toks ≠ [])
+    (htok : ∀ t ∈ toks, t ≠ [] ∧ ∀ c ∈ t, isSpace c = false) :
+    ∀ c, (joinWith ' ' toks).head? = some c → isSpace c = false := by
+  intro c hc
+  cases toks with
+  | nil => exact absurd rfl hne
+  | cons t rest =>
+    obtain ⟨ht, hall⟩ := htok t (by simp)
+    cases t with
+    | nil => exact absurd rfl ht
+    | cons a as =>
+      cases rest with
+      | nil => simp [joinWith] at hc; subst hc; exact hall a (by simp)
+      | cons y ys => simp [joinWith] at hc; subst hc; exact hall a (by simp)
+
+/-- blank-free, non-empty, pairwise distinct destination tokens read back as written -/
+theorem dests_back_of_tokens (toks : List Str) (hne : toks ≠ []) (hnd : toks.Nodup)
+    (htok : ∀ t ∈ toks, t ≠ [] ∧ ∀ c ∈ t, isSpace c = false) :
+    destinations (.str (joinStr [' '] toks)) = toks := by
+  have hsp : ∀ t ∈ toks, ' ' ∉ t := by
+    intro t ht hmem
+    have := (htok t ht).2 ' ' hmem
+    simp [isSpace] at this
+  unfold destinations
+  simp only [Cell.pyStr]
+  rw [joinStr_single]
+  unfold strip
+  rw [lstrip_of_head _ (joinWith_first toks hne htok), rstrip_of_last _ (joinWith_last toks hne htok),
+    splitOn_joinWith ' ' toks hne hsp, dedup_nodup toks hnd]
+
+end Pdt.C01
